@@ -220,6 +220,77 @@ def o1c(h):
     c.prove('get_closest_distance', spec, cap=30)
 
 
+@obligation(P, 'O1.closest_edge_and_field_weights', cap=200)
+def o1d(h):
+    """Contact.compute_closest_edges_and_field_weights (its inner get_closest_edge / get_edge_weights), compute_q_coordinates_from_field_weights and
+    compute_closest_distance_to_each_side: per integration point the selected main-surface edge is a candidate of least |signed distance|, the
+    distance reported by the sibling get_closest_distance is the distance to THAT edge, the field weight is the line parameter of the point's
+    projection onto that edge, and the reconstructed point is a + w (b - a) of that edge (cut: cpp_distance replaced by an arbitrary value per
+    (edge, point); its actual value is O1.cpp_distance)"""
+    M = _mods()
+    E, C, S = M['EdgeCpp'], M['Contact'], M['Surface']
+    nM = 4 if h.thorough() else 3
+    h.encoded(C.compute_closest_edges_and_field_weights, C.compute_q_coordinates_from_field_weights, C.compute_closest_distance_to_each_side, C.compute_projection_dists,
+              C.get_closest_distance, C.get_side_coordinates, E.cpp_line)
+    h.bounds('%d main-surface candidate edges (top of the %dx2 structured mesh) and one integration edge (a bottom edge) with its 2 Gauss points; all nodal coordinates '
+             'and displacements symbolic (any geometry, collinear or kinked), connectivity concrete; every combination of per-(edge, point) signed distances' % (nM, nM + 1))
+    h.outside('neighbour search (get_potential_interaction_list / min_dist_squared: argsort of squared distances), friction potential')
+    h.assume_note('stub: EdgeCpp.cpp_distance(edge, q) is replaced at trace and replay time by the arbitrary real edge[0,0] + edge[0,1]*q[0] + edge[1,1]*q[1] '
+                  '(any reals, varying per edge and per point; the true value is the subject of O1.cpp_distance); cpp_line and all Contact code are the real ones',
+                  'symbolic denominators |b-a|^2 of the candidate edges are assumed non-zero (non-degenerate deformed edges)')
+    mesh = M['Mesh'].construct_structured_mesh(nM + 1, 2, [0., float(nM)], [0., 1.])
+    coords = onp.asarray(mesh.coords)
+    conns = onp.asarray(mesh.conns)
+    top = onp.asarray(S.create_edges(mesh.coords, mesh.conns, lambda xs: bool(onp.all(onp.asarray(xs)[:, 1] > 1. - 1e-8))))
+    bot = onp.asarray(S.create_edges(mesh.coords, mesh.conns, lambda xs: bool(onp.all(onp.asarray(xs)[:, 1] < 1e-8))))
+    assert top.shape == (nM, 2) and bot.shape[0] >= 1
+    surfI = bot[:1]
+    nodesM = [[int(conns[e][n]), int(conns[e][(n + 1) % 3])] for e, n in top]
+    nI = [int(conns[surfI[0][0]][surfI[0][1]]), int(conns[surfI[0][0]][(surfI[0][1] + 1) % 3])]
+    quad = M['QR'].create_quadrature_rule_1D(2)
+    xig = [float(x) for x in onp.asarray(quad.xigauss)]
+    jconns, jtop, jI = jnp.asarray(conns), jnp.asarray(top), jnp.asarray(surfI)
+    stub = lambda edge, q: edge[0, 0] + edge[0, 1] * q[0] + edge[1, 1] * q[1]
+
+    def fn(X, U):
+        old = E.cpp_distance
+        E.cpp_distance = stub
+        try:
+            m = mesh._replace(coords=X, conns=jconns)
+            il = jtop[None]
+            ce, w = C.compute_closest_edges_and_field_weights(m, U, quad, il, jI)
+            return ce, w, C.compute_q_coordinates_from_field_weights(m, U, ce, w), C.compute_closest_distance_to_each_side(m, U, quad, il, jI)
+        finally:
+            E.cpp_distance = old
+    ex = dict(X=coords + 0.05 * onp.sin(onp.arange(float(coords.size)).reshape(coords.shape)), U=_ex_disp(coords))
+    smp = lambda rng: [coords + 0.3 * rng.normal(size=coords.shape), 0.5 * rng.normal(size=coords.shape)]
+    c = Case(h, fn, ex, sampler=smp, label='closest_edges', jit=False)
+
+    def spec(i, o):
+        X, U = i['X'], i['U']
+        ce, w, xq, dist = o
+        x = lambda n: [v_add(X[n][d], U[n][d]) for d in range(2)]
+        edgesM = [[x(a), x(b)] for a, b in nodesM]
+        pts = _samples([nI], xig, X, U)[0]
+        atoms = []
+        pre = [v_lt(0.0, _len2(e)) for e in edgesM]
+        for q in range(len(xig)):
+            p = pts[q]
+            dk = [v_add(e[0][0], v_add(v_mul(e[0][1], p[0]), v_mul(e[1][1], p[1]))) for e in edgesM]
+            chosen = [v_and(v_eq(ce[0][q][0], float(top[k][0])), v_eq(ce[0][q][1], float(top[k][1]))) for k in range(nM)]
+            atoms.append(Holds(v_or(*chosen), name='q%d.selected_edge_is_a_candidate' % q))
+            for k in range(nM):
+                e = edgesM[k]
+                v = [v_sub(e[1][d], e[0][d]) for d in range(2)]
+                atoms.append(Le([v_abs(dk[k])] * nM, [v_abs(d) for d in dk], when=chosen[k], name='q%d.edge%d_selected_only_if_least_magnitude' % (q, k)))
+                atoms.append(Eq(s0(dist[0][q]), dk[k], when=chosen[k], name='q%d.edge%d_reported_distance_is_that_of_the_selected_edge' % (q, k)))
+                atoms.append(Eq(v_mul(s0(w[0][q]), _len2(e)), v_dot(v, [v_sub(p[d], e[0][d]) for d in range(2)]), when=chosen[k],
+                                name='q%d.edge%d_weight_is_projection_parameter_on_the_selected_edge' % (q, k), scale=_len2(e)))
+                atoms.append(Eq([xq[0][q][0], xq[0][q][1]], _pt(e, s0(w[0][q])), when=chosen[k], name='q%d.edge%d_reconstructed_point_is_on_the_selected_edge' % (q, k)))
+        return pre, atoms
+    c.prove('closest_edge', spec, cap=40)
+
+
 # ============================================================================================ O2 / O3 level sets
 def _boundary(nedges=2):
     """the repository's structured (nedges+1)x2 mesh; its top edges (as found by Surface.create_edges) are the contact boundary"""
